@@ -84,7 +84,7 @@ def main():
                 samples.append({"file": r["path"], "defs": r["n_defs"], "classes": r["n_classes"], "result": "only additions; compiles; docstring and __future__ flags unchanged"})
     R.count("real-files", programs); R.count("skipped-unparsable", skipped)
     # ---- B: generated modules + small real files, also against the Coq model
-    ngen = 1500 if R.thorough else 160
+    ngen = 8000 if R.thorough else 160
     sources = [gen_source(R.rng) for _ in range(ngen)]
     sources += ["", "\n", '"""only a docstring"""\n', "from __future__ import annotations\n", '""" """\nfrom __future__ import annotations\ndef f(): pass\n',
                 "def f(): pass\n", "class A: pass\n", '"""d"""\nfrom __future__ import annotations\nimport os\nfrom __future__ import division\n' if False else "x = 1\n"]
